@@ -180,6 +180,11 @@ def step (_ : Unit) (line : String) : Unit × String :=
       match parseLabels ls, parseStr s with
       | some labels, some s => showE ((treeFromNewick labels parseDec (0 : Rat) s).map showTree)
       | _, _ => "bad-op"
+    | ["nread", ls, s] =>
+      match parseLabels ls, parseStr s with
+      | some labels, some s =>
+        showE ((fromNewick labels parseDec (0 : Rat) s).map (fun r => showTree r.1 ++ " " ++ showRat r.2))
+      | _, _ => "bad-op"
     | ["dist", topo, i, j, t] =>
       match i.toNat?, j.toNat? with
       | some i, some j => withTree t fun t =>
